@@ -109,12 +109,14 @@ def scn_cancel(ctx):
                 pending_then = [tag for (tag, st) in x["state"]]
             first = any_rets[0] if any_rets else None
             if first is not None and first["result"] is True:
-                # every input that was still pending when the output was cancelled got a cancel()
+                # every input that was still pending when cancel() returned has received a cancel() by then
+                st_then = dict(first["state"])
                 for d in e.inputs + ([e.inner] if e.inner is not None else []):
-                    got = ev.of("cancel_call", tag=d.tag)
-                    finished_before = d.done() and not d.cancelled()
-                    if not finished_before:
-                        ctx.check("cancel-propagates-to-inputs", len(got) >= 1, "%s: pending input %s received no cancel()" % (name, d.tag))
+                    got = ev.of("cancel_call", tag=d.tag)  # (another thread's concurrent cancel() may still be forwarding)
+                    if st_then.get(d.tag) in ("PENDING", "RUNNING"):
+                        ctx.check("cancel-propagates-to-inputs", len(got) >= 1, "%s: input %s was %s when cancel() returned True and never received a cancel()" % (name, d.tag, st_then.get(d.tag)))
+                        ctx.reach("propagation-checked")
+                    elif st_then.get(d.tag) in ("CANCELLED", "CANCELLED_AND_NOTIFIED"):
                         ctx.reach("propagation-checked")
     else:
         for x in true_rets[:1]:
